@@ -3,8 +3,9 @@
    for one TiKV region with n replicas (with and without forwarding through a proxy), without TiFlash.
    One outcome of the fault script is consumed per RPC attempt; random tie-breaks (randIntn) and the
    jittered sleep lengths are oracle inputs.  Not modelled: wall-clock (attemptedTime, region TTL,
-   decay of the estimated wait), health-check goroutines, store re-resolution; the region is freshly loaded
-   (proxyTiKVIdx = -1: it is only set by onSendSuccess, i.e. when the call ends).
+   decay of the estimated wait), health-check goroutines, store re-resolution.  The call starts from ANY cache
+   state: per-replica/store state [c_reps] (liveness, slow, stale epoch, ...), the cached leader [c_leader0] and the proxy memoised
+   by an earlier call [c_proxy0] (proxyTiKVIdx is set by onSendSuccess, i.e. when a call ends).
    [fixed = true] is the code as it is ([run]): replica.onUpdateLeader(maxRearm = len(replicas) - 1) re-arms an exhausted replica
    only while its counter [rearmed] is below maxRearm (fix cb7d671 of finding F10).  [fixed = false] is the rule before that
    fix (re-arm on every hint), kept only to state why the fix is needed ([run_before_fix]). *)
@@ -121,30 +122,32 @@ Record state := mkState {
   rearmed_v : list nat;
   dead : bool;
   killed : bool;
-  n_bo : nat }.
-Definition set_reps (v : list rep) (s : state) : state := mkState (v) (leader s) (valid s) (rt s) (sel_attempts s) (inv_retry s) (busy_thr s) (lb_count s) (lb_peer s) (lb_probed s) (q_rt s) (q_rr s) (q_stale s) (q_retry s) (bo_total s) (bo_excl s) (orc_r s) (orc_s s) (proxy s) (rearmed_v s) (dead s) (killed s) (n_bo s).
-Definition set_leader (v : nat) (s : state) : state := mkState (reps s) (v) (valid s) (rt s) (sel_attempts s) (inv_retry s) (busy_thr s) (lb_count s) (lb_peer s) (lb_probed s) (q_rt s) (q_rr s) (q_stale s) (q_retry s) (bo_total s) (bo_excl s) (orc_r s) (orc_s s) (proxy s) (rearmed_v s) (dead s) (killed s) (n_bo s).
-Definition set_valid (v : bool) (s : state) : state := mkState (reps s) (leader s) (v) (rt s) (sel_attempts s) (inv_retry s) (busy_thr s) (lb_count s) (lb_peer s) (lb_probed s) (q_rt s) (q_rr s) (q_stale s) (q_retry s) (bo_total s) (bo_excl s) (orc_r s) (orc_s s) (proxy s) (rearmed_v s) (dead s) (killed s) (n_bo s).
-Definition set_rt (v : read_type) (s : state) : state := mkState (reps s) (leader s) (valid s) (v) (sel_attempts s) (inv_retry s) (busy_thr s) (lb_count s) (lb_peer s) (lb_probed s) (q_rt s) (q_rr s) (q_stale s) (q_retry s) (bo_total s) (bo_excl s) (orc_r s) (orc_s s) (proxy s) (rearmed_v s) (dead s) (killed s) (n_bo s).
-Definition set_sel_attempts (v : nat) (s : state) : state := mkState (reps s) (leader s) (valid s) (rt s) (v) (inv_retry s) (busy_thr s) (lb_count s) (lb_peer s) (lb_probed s) (q_rt s) (q_rr s) (q_stale s) (q_retry s) (bo_total s) (bo_excl s) (orc_r s) (orc_s s) (proxy s) (rearmed_v s) (dead s) (killed s) (n_bo s).
-Definition set_inv_retry (v : bool) (s : state) : state := mkState (reps s) (leader s) (valid s) (rt s) (sel_attempts s) (v) (busy_thr s) (lb_count s) (lb_peer s) (lb_probed s) (q_rt s) (q_rr s) (q_stale s) (q_retry s) (bo_total s) (bo_excl s) (orc_r s) (orc_s s) (proxy s) (rearmed_v s) (dead s) (killed s) (n_bo s).
-Definition set_busy_thr (v : bool) (s : state) : state := mkState (reps s) (leader s) (valid s) (rt s) (sel_attempts s) (inv_retry s) (v) (lb_count s) (lb_peer s) (lb_probed s) (q_rt s) (q_rr s) (q_stale s) (q_retry s) (bo_total s) (bo_excl s) (orc_r s) (orc_s s) (proxy s) (rearmed_v s) (dead s) (killed s) (n_bo s).
-Definition set_lb_count (v : nat) (s : state) : state := mkState (reps s) (leader s) (valid s) (rt s) (sel_attempts s) (inv_retry s) (busy_thr s) (v) (lb_peer s) (lb_probed s) (q_rt s) (q_rr s) (q_stale s) (q_retry s) (bo_total s) (bo_excl s) (orc_r s) (orc_s s) (proxy s) (rearmed_v s) (dead s) (killed s) (n_bo s).
-Definition set_lb_peer (v : option nat) (s : state) : state := mkState (reps s) (leader s) (valid s) (rt s) (sel_attempts s) (inv_retry s) (busy_thr s) (lb_count s) (v) (lb_probed s) (q_rt s) (q_rr s) (q_stale s) (q_retry s) (bo_total s) (bo_excl s) (orc_r s) (orc_s s) (proxy s) (rearmed_v s) (dead s) (killed s) (n_bo s).
-Definition set_lb_probed (v : bool) (s : state) : state := mkState (reps s) (leader s) (valid s) (rt s) (sel_attempts s) (inv_retry s) (busy_thr s) (lb_count s) (lb_peer s) (v) (q_rt s) (q_rr s) (q_stale s) (q_retry s) (bo_total s) (bo_excl s) (orc_r s) (orc_s s) (proxy s) (rearmed_v s) (dead s) (killed s) (n_bo s).
-Definition set_q_rt (v : read_type) (s : state) : state := mkState (reps s) (leader s) (valid s) (rt s) (sel_attempts s) (inv_retry s) (busy_thr s) (lb_count s) (lb_peer s) (lb_probed s) (v) (q_rr s) (q_stale s) (q_retry s) (bo_total s) (bo_excl s) (orc_r s) (orc_s s) (proxy s) (rearmed_v s) (dead s) (killed s) (n_bo s).
-Definition set_q_rr (v : bool) (s : state) : state := mkState (reps s) (leader s) (valid s) (rt s) (sel_attempts s) (inv_retry s) (busy_thr s) (lb_count s) (lb_peer s) (lb_probed s) (q_rt s) (v) (q_stale s) (q_retry s) (bo_total s) (bo_excl s) (orc_r s) (orc_s s) (proxy s) (rearmed_v s) (dead s) (killed s) (n_bo s).
-Definition set_q_stale (v : bool) (s : state) : state := mkState (reps s) (leader s) (valid s) (rt s) (sel_attempts s) (inv_retry s) (busy_thr s) (lb_count s) (lb_peer s) (lb_probed s) (q_rt s) (q_rr s) (v) (q_retry s) (bo_total s) (bo_excl s) (orc_r s) (orc_s s) (proxy s) (rearmed_v s) (dead s) (killed s) (n_bo s).
-Definition set_q_retry (v : bool) (s : state) : state := mkState (reps s) (leader s) (valid s) (rt s) (sel_attempts s) (inv_retry s) (busy_thr s) (lb_count s) (lb_peer s) (lb_probed s) (q_rt s) (q_rr s) (q_stale s) (v) (bo_total s) (bo_excl s) (orc_r s) (orc_s s) (proxy s) (rearmed_v s) (dead s) (killed s) (n_bo s).
-Definition set_bo_total (v : N) (s : state) : state := mkState (reps s) (leader s) (valid s) (rt s) (sel_attempts s) (inv_retry s) (busy_thr s) (lb_count s) (lb_peer s) (lb_probed s) (q_rt s) (q_rr s) (q_stale s) (q_retry s) (v) (bo_excl s) (orc_r s) (orc_s s) (proxy s) (rearmed_v s) (dead s) (killed s) (n_bo s).
-Definition set_bo_excl (v : N) (s : state) : state := mkState (reps s) (leader s) (valid s) (rt s) (sel_attempts s) (inv_retry s) (busy_thr s) (lb_count s) (lb_peer s) (lb_probed s) (q_rt s) (q_rr s) (q_stale s) (q_retry s) (bo_total s) (v) (orc_r s) (orc_s s) (proxy s) (rearmed_v s) (dead s) (killed s) (n_bo s).
-Definition set_orc_r (v : list nat) (s : state) : state := mkState (reps s) (leader s) (valid s) (rt s) (sel_attempts s) (inv_retry s) (busy_thr s) (lb_count s) (lb_peer s) (lb_probed s) (q_rt s) (q_rr s) (q_stale s) (q_retry s) (bo_total s) (bo_excl s) (v) (orc_s s) (proxy s) (rearmed_v s) (dead s) (killed s) (n_bo s).
-Definition set_orc_s (v : list N) (s : state) : state := mkState (reps s) (leader s) (valid s) (rt s) (sel_attempts s) (inv_retry s) (busy_thr s) (lb_count s) (lb_peer s) (lb_probed s) (q_rt s) (q_rr s) (q_stale s) (q_retry s) (bo_total s) (bo_excl s) (orc_r s) (v) (proxy s) (rearmed_v s) (dead s) (killed s) (n_bo s).
-Definition set_proxy (v : option nat) (s : state) : state := mkState (reps s) (leader s) (valid s) (rt s) (sel_attempts s) (inv_retry s) (busy_thr s) (lb_count s) (lb_peer s) (lb_probed s) (q_rt s) (q_rr s) (q_stale s) (q_retry s) (bo_total s) (bo_excl s) (orc_r s) (orc_s s) (v) (rearmed_v s) (dead s) (killed s) (n_bo s).
-Definition set_rearmed_v (v : list nat) (s : state) : state := mkState (reps s) (leader s) (valid s) (rt s) (sel_attempts s) (inv_retry s) (busy_thr s) (lb_count s) (lb_peer s) (lb_probed s) (q_rt s) (q_rr s) (q_stale s) (q_retry s) (bo_total s) (bo_excl s) (orc_r s) (orc_s s) (proxy s) (v) (dead s) (killed s) (n_bo s).
-Definition set_dead (v : bool) (s : state) : state := mkState (reps s) (leader s) (valid s) (rt s) (sel_attempts s) (inv_retry s) (busy_thr s) (lb_count s) (lb_peer s) (lb_probed s) (q_rt s) (q_rr s) (q_stale s) (q_retry s) (bo_total s) (bo_excl s) (orc_r s) (orc_s s) (proxy s) (rearmed_v s) (v) (killed s) (n_bo s).
-Definition set_killed (v : bool) (s : state) : state := mkState (reps s) (leader s) (valid s) (rt s) (sel_attempts s) (inv_retry s) (busy_thr s) (lb_count s) (lb_peer s) (lb_probed s) (q_rt s) (q_rr s) (q_stale s) (q_retry s) (bo_total s) (bo_excl s) (orc_r s) (orc_s s) (proxy s) (rearmed_v s) (dead s) (v) (n_bo s).
-Definition set_n_bo (v : nat) (s : state) : state := mkState (reps s) (leader s) (valid s) (rt s) (sel_attempts s) (inv_retry s) (busy_thr s) (lb_count s) (lb_peer s) (lb_probed s) (q_rt s) (q_rr s) (q_stale s) (q_retry s) (bo_total s) (bo_excl s) (orc_r s) (orc_s s) (proxy s) (rearmed_v s) (dead s) (killed s) (v).
+  n_bo : nat;
+  pidx : option nat }.
+Definition set_reps (v : list rep) (s : state) : state := mkState (v) (leader s) (valid s) (rt s) (sel_attempts s) (inv_retry s) (busy_thr s) (lb_count s) (lb_peer s) (lb_probed s) (q_rt s) (q_rr s) (q_stale s) (q_retry s) (bo_total s) (bo_excl s) (orc_r s) (orc_s s) (proxy s) (rearmed_v s) (dead s) (killed s) (n_bo s) (pidx s).
+Definition set_leader (v : nat) (s : state) : state := mkState (reps s) (v) (valid s) (rt s) (sel_attempts s) (inv_retry s) (busy_thr s) (lb_count s) (lb_peer s) (lb_probed s) (q_rt s) (q_rr s) (q_stale s) (q_retry s) (bo_total s) (bo_excl s) (orc_r s) (orc_s s) (proxy s) (rearmed_v s) (dead s) (killed s) (n_bo s) (pidx s).
+Definition set_valid (v : bool) (s : state) : state := mkState (reps s) (leader s) (v) (rt s) (sel_attempts s) (inv_retry s) (busy_thr s) (lb_count s) (lb_peer s) (lb_probed s) (q_rt s) (q_rr s) (q_stale s) (q_retry s) (bo_total s) (bo_excl s) (orc_r s) (orc_s s) (proxy s) (rearmed_v s) (dead s) (killed s) (n_bo s) (pidx s).
+Definition set_rt (v : read_type) (s : state) : state := mkState (reps s) (leader s) (valid s) (v) (sel_attempts s) (inv_retry s) (busy_thr s) (lb_count s) (lb_peer s) (lb_probed s) (q_rt s) (q_rr s) (q_stale s) (q_retry s) (bo_total s) (bo_excl s) (orc_r s) (orc_s s) (proxy s) (rearmed_v s) (dead s) (killed s) (n_bo s) (pidx s).
+Definition set_sel_attempts (v : nat) (s : state) : state := mkState (reps s) (leader s) (valid s) (rt s) (v) (inv_retry s) (busy_thr s) (lb_count s) (lb_peer s) (lb_probed s) (q_rt s) (q_rr s) (q_stale s) (q_retry s) (bo_total s) (bo_excl s) (orc_r s) (orc_s s) (proxy s) (rearmed_v s) (dead s) (killed s) (n_bo s) (pidx s).
+Definition set_inv_retry (v : bool) (s : state) : state := mkState (reps s) (leader s) (valid s) (rt s) (sel_attempts s) (v) (busy_thr s) (lb_count s) (lb_peer s) (lb_probed s) (q_rt s) (q_rr s) (q_stale s) (q_retry s) (bo_total s) (bo_excl s) (orc_r s) (orc_s s) (proxy s) (rearmed_v s) (dead s) (killed s) (n_bo s) (pidx s).
+Definition set_busy_thr (v : bool) (s : state) : state := mkState (reps s) (leader s) (valid s) (rt s) (sel_attempts s) (inv_retry s) (v) (lb_count s) (lb_peer s) (lb_probed s) (q_rt s) (q_rr s) (q_stale s) (q_retry s) (bo_total s) (bo_excl s) (orc_r s) (orc_s s) (proxy s) (rearmed_v s) (dead s) (killed s) (n_bo s) (pidx s).
+Definition set_lb_count (v : nat) (s : state) : state := mkState (reps s) (leader s) (valid s) (rt s) (sel_attempts s) (inv_retry s) (busy_thr s) (v) (lb_peer s) (lb_probed s) (q_rt s) (q_rr s) (q_stale s) (q_retry s) (bo_total s) (bo_excl s) (orc_r s) (orc_s s) (proxy s) (rearmed_v s) (dead s) (killed s) (n_bo s) (pidx s).
+Definition set_lb_peer (v : option nat) (s : state) : state := mkState (reps s) (leader s) (valid s) (rt s) (sel_attempts s) (inv_retry s) (busy_thr s) (lb_count s) (v) (lb_probed s) (q_rt s) (q_rr s) (q_stale s) (q_retry s) (bo_total s) (bo_excl s) (orc_r s) (orc_s s) (proxy s) (rearmed_v s) (dead s) (killed s) (n_bo s) (pidx s).
+Definition set_lb_probed (v : bool) (s : state) : state := mkState (reps s) (leader s) (valid s) (rt s) (sel_attempts s) (inv_retry s) (busy_thr s) (lb_count s) (lb_peer s) (v) (q_rt s) (q_rr s) (q_stale s) (q_retry s) (bo_total s) (bo_excl s) (orc_r s) (orc_s s) (proxy s) (rearmed_v s) (dead s) (killed s) (n_bo s) (pidx s).
+Definition set_q_rt (v : read_type) (s : state) : state := mkState (reps s) (leader s) (valid s) (rt s) (sel_attempts s) (inv_retry s) (busy_thr s) (lb_count s) (lb_peer s) (lb_probed s) (v) (q_rr s) (q_stale s) (q_retry s) (bo_total s) (bo_excl s) (orc_r s) (orc_s s) (proxy s) (rearmed_v s) (dead s) (killed s) (n_bo s) (pidx s).
+Definition set_q_rr (v : bool) (s : state) : state := mkState (reps s) (leader s) (valid s) (rt s) (sel_attempts s) (inv_retry s) (busy_thr s) (lb_count s) (lb_peer s) (lb_probed s) (q_rt s) (v) (q_stale s) (q_retry s) (bo_total s) (bo_excl s) (orc_r s) (orc_s s) (proxy s) (rearmed_v s) (dead s) (killed s) (n_bo s) (pidx s).
+Definition set_q_stale (v : bool) (s : state) : state := mkState (reps s) (leader s) (valid s) (rt s) (sel_attempts s) (inv_retry s) (busy_thr s) (lb_count s) (lb_peer s) (lb_probed s) (q_rt s) (q_rr s) (v) (q_retry s) (bo_total s) (bo_excl s) (orc_r s) (orc_s s) (proxy s) (rearmed_v s) (dead s) (killed s) (n_bo s) (pidx s).
+Definition set_q_retry (v : bool) (s : state) : state := mkState (reps s) (leader s) (valid s) (rt s) (sel_attempts s) (inv_retry s) (busy_thr s) (lb_count s) (lb_peer s) (lb_probed s) (q_rt s) (q_rr s) (q_stale s) (v) (bo_total s) (bo_excl s) (orc_r s) (orc_s s) (proxy s) (rearmed_v s) (dead s) (killed s) (n_bo s) (pidx s).
+Definition set_bo_total (v : N) (s : state) : state := mkState (reps s) (leader s) (valid s) (rt s) (sel_attempts s) (inv_retry s) (busy_thr s) (lb_count s) (lb_peer s) (lb_probed s) (q_rt s) (q_rr s) (q_stale s) (q_retry s) (v) (bo_excl s) (orc_r s) (orc_s s) (proxy s) (rearmed_v s) (dead s) (killed s) (n_bo s) (pidx s).
+Definition set_bo_excl (v : N) (s : state) : state := mkState (reps s) (leader s) (valid s) (rt s) (sel_attempts s) (inv_retry s) (busy_thr s) (lb_count s) (lb_peer s) (lb_probed s) (q_rt s) (q_rr s) (q_stale s) (q_retry s) (bo_total s) (v) (orc_r s) (orc_s s) (proxy s) (rearmed_v s) (dead s) (killed s) (n_bo s) (pidx s).
+Definition set_orc_r (v : list nat) (s : state) : state := mkState (reps s) (leader s) (valid s) (rt s) (sel_attempts s) (inv_retry s) (busy_thr s) (lb_count s) (lb_peer s) (lb_probed s) (q_rt s) (q_rr s) (q_stale s) (q_retry s) (bo_total s) (bo_excl s) (v) (orc_s s) (proxy s) (rearmed_v s) (dead s) (killed s) (n_bo s) (pidx s).
+Definition set_orc_s (v : list N) (s : state) : state := mkState (reps s) (leader s) (valid s) (rt s) (sel_attempts s) (inv_retry s) (busy_thr s) (lb_count s) (lb_peer s) (lb_probed s) (q_rt s) (q_rr s) (q_stale s) (q_retry s) (bo_total s) (bo_excl s) (orc_r s) (v) (proxy s) (rearmed_v s) (dead s) (killed s) (n_bo s) (pidx s).
+Definition set_proxy (v : option nat) (s : state) : state := mkState (reps s) (leader s) (valid s) (rt s) (sel_attempts s) (inv_retry s) (busy_thr s) (lb_count s) (lb_peer s) (lb_probed s) (q_rt s) (q_rr s) (q_stale s) (q_retry s) (bo_total s) (bo_excl s) (orc_r s) (orc_s s) (v) (rearmed_v s) (dead s) (killed s) (n_bo s) (pidx s).
+Definition set_rearmed_v (v : list nat) (s : state) : state := mkState (reps s) (leader s) (valid s) (rt s) (sel_attempts s) (inv_retry s) (busy_thr s) (lb_count s) (lb_peer s) (lb_probed s) (q_rt s) (q_rr s) (q_stale s) (q_retry s) (bo_total s) (bo_excl s) (orc_r s) (orc_s s) (proxy s) (v) (dead s) (killed s) (n_bo s) (pidx s).
+Definition set_dead (v : bool) (s : state) : state := mkState (reps s) (leader s) (valid s) (rt s) (sel_attempts s) (inv_retry s) (busy_thr s) (lb_count s) (lb_peer s) (lb_probed s) (q_rt s) (q_rr s) (q_stale s) (q_retry s) (bo_total s) (bo_excl s) (orc_r s) (orc_s s) (proxy s) (rearmed_v s) (v) (killed s) (n_bo s) (pidx s).
+Definition set_killed (v : bool) (s : state) : state := mkState (reps s) (leader s) (valid s) (rt s) (sel_attempts s) (inv_retry s) (busy_thr s) (lb_count s) (lb_peer s) (lb_probed s) (q_rt s) (q_rr s) (q_stale s) (q_retry s) (bo_total s) (bo_excl s) (orc_r s) (orc_s s) (proxy s) (rearmed_v s) (dead s) (v) (n_bo s) (pidx s).
+Definition set_n_bo (v : nat) (s : state) : state := mkState (reps s) (leader s) (valid s) (rt s) (sel_attempts s) (inv_retry s) (busy_thr s) (lb_count s) (lb_peer s) (lb_probed s) (q_rt s) (q_rr s) (q_stale s) (q_retry s) (bo_total s) (bo_excl s) (orc_r s) (orc_s s) (proxy s) (rearmed_v s) (dead s) (killed s) (v) (pidx s).
+Definition set_pidx (v : option nat) (s : state) : state := mkState (reps s) (leader s) (valid s) (rt s) (sel_attempts s) (inv_retry s) (busy_thr s) (lb_count s) (lb_peer s) (lb_probed s) (q_rt s) (q_rr s) (q_stale s) (q_retry s) (bo_total s) (bo_excl s) (orc_r s) (orc_s s) (proxy s) (rearmed_v s) (dead s) (killed s) (n_bo s) (v).
 
 
 Record cfg := mkCfg {
@@ -155,6 +158,8 @@ Record cfg := mkCfg {
   c_cancel : trigger (* the caller's context is cancelled *);
   c_kill : trigger (* kv.Variables.Killed is set *);
   c_interruptible : bool (* req.IsInterruptible(): all commands but Commit, BatchRollback, PessimisticRollback *);
+  c_leader0 : nat (* the cached region's leader index when the call starts (RegionStore.workTiKVIdx) *);
+  c_proxy0 : option nat (* the proxy memoised in the cached region by an earlier call (RegionStore.proxyTiKVIdx) *);
   c_async : bool (* the call goes through SendReqAsync: the first attempt is prepared by initForAsyncRequest, which does not
                     look at the kill flag; everything else is the same state machine (handleAsyncResponse, then next()) *) }.
 
@@ -260,13 +265,23 @@ Definition inval_store (r : rep) : rep := if stale r then r else set_slow true (
 Definition proxy_cand (lead i : nat) (r : rep) : bool :=
   negb (i =? lead) && negb (exhausted r 1) && is_reachable (live r) && negb (stale r).
 Inductive proxy_choice := PxLeaderOnly | PxVia (p : nat) | PxNone.
+(* the leader is usable directly: no proxy, and the memoised proxy is forgotten (unsetProxyStoreIfNeeded) *)
+Definition proxy_unneeded (s : state) : bool :=
+  let ld := rep_at s (leader s) in is_reachable (live ld) || f_notleader ld.
 Definition proxy_next (s : state) : proxy_choice :=
-  let ld := rep_at s (leader s) in
-  if is_reachable (live ld) || f_notleader ld then PxLeaderOnly
-  else match find (fun i => proxy_cand (leader s) i (rep_at s i)) (seq 0 (length (reps s))) with
-       | Some p => PxVia p
-       | None => PxNone
-       end.
+  if proxy_unneeded s then PxLeaderOnly
+  else
+    let scan := match find (fun i => proxy_cand (leader s) i (rep_at s i)) (seq 0 (length (reps s))) with
+                | Some p => PxVia p
+                | None => PxNone
+                end in
+    (* the memoised proxy first — but only if it is still a candidate (not tried in this call, reachable, fresh) *)
+    match pidx s with
+    | Some q => if (q <? length (reps s)) && proxy_cand (leader s) q (rep_at s q) then PxVia q else scan
+    | None => scan
+    end.
+Definition unset_if (c : cfg) (s : state) : state :=
+  if rt_eqb (rt s) RTLeader && c_fw c && proxy_unneeded s then set_pidx None s else s.
 
 (* replicaSelector.nextForReplicaReadLeader without the proxy strategy *)
 Definition next_leader (c : cfg) (s : state) : option nat * state :=
@@ -445,7 +460,7 @@ Definition sel_phase (c : cfg) (s : state) : sres :=
   match go with
   | None => no_candidate c s
   | Some s0 =>
-      let s1 := set_proxy None (set_sel_attempts (sat3 (S (sel_attempts s0))) s0) in
+      let s1 := set_proxy None (set_sel_attempts (sat3 (S (sel_attempts s0))) (unset_if c s0)) in
       match (if rt_eqb (rt s1) RTLeader && c_fw c then proxy_next s1 else PxLeaderOnly) with
       | PxNone =>
           (* all followers are tried as proxy: invalidate the leader's store, reload on access *)
@@ -517,9 +532,9 @@ Fixpoint loop_gen (fixed : bool) (c : cfg) (script : list outcome) (s : state) (
   end.
 
 Definition init_state (c : cfg) (rands : list nat) (sleeps : list N) : state :=
-  mkState (c_reps c) 0 true (c_rt c) 0 false (c_thr c) 0 None false
+  mkState (c_reps c) (c_leader0 c) true (c_rt c) 0 false (c_thr c) 0 None false
           (c_rt c) (c_read c && negb (c_stale c) && negb (rt_eqb (c_rt c) RTLeader)) (c_read c && c_stale c) false
-          0%N 0%N rands sleeps None (map (fun _ => 0) (c_reps c)) (trig_pre (c_cancel c)) (trig_pre (c_kill c)) 0.
+          0%N 0%N rands sleeps None (map (fun _ => 0) (c_reps c)) (trig_pre (c_cancel c)) (trig_pre (c_kill c)) 0 (c_proxy0 c).
 
 (* RegionRequestSender.validateReadTS: requests served by a TiDB node are exempt, every other read (TiKV, TiFlash) is validated *)
 Definition validation_refuses (c : cfg) : bool := c_read c && negb (c_val c) && negb (is_tidb (c_store_tp c)).
